@@ -56,7 +56,7 @@ package beacon
 //@   requires b != nil && a.last != nil && a.last.Round < 18446744073709551615
 //@   requires lowerLayer(a.Store)
 //@   requires stored(a.Store, a.last.Round) && sigOf(a.Store, a.last.Round) == a.last.Signature
-//@   modifies a.last, stored(a.Store), sigOf(a.Store), prevOf(a.Store), b.PreviousSig
+//@   modifies a.last, stored(a.Store), sigOf(a.Store), prevOf(a.Store), cannotRead(a.Store), b.PreviousSig
 //@   ensures [C02:last-is-stored-invariant] stored(a.Store, a.last.Round) && sigOf(a.Store, a.last.Round) == a.last.Signature
 //@   ensures [C02:already-stored-means-present] is(err, ErrBeaconAlreadyStored) ==> stored(a.Store, b.Round) && bytesEq(sigOf(a.Store, b.Round), b.Signature)
 //@   ensures [C02:only-last-plus-one-accepted] err == nil ==> b.Round == old(a.last.Round) + 1
@@ -79,7 +79,7 @@ package beacon
 //@   props C02
 //@   flags lockcheck
 //@   requires b != nil && a.last != nil
-//@   modifies a.last, stored(a.Store), sigOf(a.Store), prevOf(a.Store), b.PreviousSig
+//@   modifies a.last, stored(a.Store), sigOf(a.Store), prevOf(a.Store), cannotRead(a.Store), b.PreviousSig
 //@   ensures [C02:chained-link-enforced] a.isChained && err == nil ==> bytesEq(old(a.last.Signature), old(b.PreviousSig))
 //@   ensures [C02:chained-link-mismatch-writes-nothing] a.isChained && !bytesEq(old(a.last.Signature), old(b.PreviousSig)) ==> err != nil && (forall r int :: stored(a.Store, r) == old(stored(a.Store, r)) && sigOf(a.Store, r) == old(sigOf(a.Store, r)))
 //@   ensures [C02:unchained-strips-previous] !a.isChained && err == nil ==> b.PreviousSig == nil && prevOf(a.Store, b.Round) == nil
@@ -89,7 +89,7 @@ package beacon
 //@ func (*chainStore).tryAppend(c, ctx, last, newB) (ok)
 //@   props C02
 //@   requires last != nil && newB != nil
-//@   modifies stored(c.CallbackStore), sigOf(c.CallbackStore), prevOf(c.CallbackStore), newB.PreviousSig
+//@   modifies stored(c.CallbackStore), sigOf(c.CallbackStore), prevOf(c.CallbackStore), cannotRead(c.CallbackStore), newB.PreviousSig
 //@   ensures [C02:aggregator-appends-only-last-plus-one] ok && last.Round < 18446744073709551615 ==> newB.Round == last.Round + 1
 //@   ensures [C02:aggregator-success-means-stored-or-identical] ok ==> stored(c.CallbackStore, newB.Round) && bytesEq(sigOf(c.CallbackStore, newB.Round), newB.Signature)
 //@   call Put#0: assert [C02:aggregator-put-only-next-round] last.Round < 18446744073709551615 ==> newB.Round == last.Round + 1
